@@ -13,9 +13,18 @@
   MAC verified, and an immediate replay is rejected. Fragment level: Props.C14 (`c14_once`).
   Cross-session replay rests on fresh DH keys per session (ideal-crypto assumption, DESIGN §6); it is
   exercised by the `sched`/`life` oracles (replays after End / re-AKE), not a theorem.
+  API level (Proofs.KeysRefine; the refinement itself is registered in Props.C19Api): whatever an API call
+  does to `conv.keys` is a history `KHist` of steps `KStep'` and session boundaries (`akeHasFinished`,
+  `End`, the peer's disconnect). `KStep'` = `KStep` plus the three things the conversation does that
+  `KStep` lacks: accepted but the rotation failed for lack of randomness (`recvNoRot`), a refused replay
+  leaving the counter entry `findCounter` created (`replay`), a send that stopped at the message header
+  (`sendAbort`). `c05_no_replay'` / `c05_no_replay_until_ake` lift C05 to these steps and across `End` /
+  disconnect (everything short of a completed key exchange); `api_c05_no_replay_within_session` states it
+  between two states of any API history from a fresh conversation.
 -/
 
 import Proofs.Keys
+import Proofs.KeysRefineApi
 namespace Otr.C05
 open Otr
 
@@ -52,5 +61,21 @@ theorem retired_forever {K k k'} (h : KSteps K k k') (i j : Nat)
 theorem rotateOurKeys_fail_unchanged (K : Crypto) (k : Keys) (r : Nat) :
     k.rotateOurKeys K r none = (k, if r = k.ourKeyID then some .shortRandom else none) :=
   Otr.rotateOurKeys_fail_unchanged K k r
+
+/-- a history without session boundary is a sequence of steps, and conversely -/
+theorem khist_zero_iff : type_of% @Otr.khist_zero_iff := @Otr.khist_zero_iff
+
+/-- C05 over the steps the conversation really takes (failed rotation, refused replay, aborted send included) -/
+theorem c05_no_replay' : type_of% @Otr.c05_no_replay' := @Otr.c05_no_replay'
+
+/-- C05 across `End` and the peer's disconnect: no replay until a key exchange completes -/
+theorem c05_no_replay_until_ake : type_of% @Otr.c05_no_replay_until_ake := @Otr.c05_no_replay_until_ake
+
+/-- C05 between two states of an API history with no completed key exchange in between (no hypothesis on the cryptography) -/
+theorem runApi_c05_no_replay : type_of% @Otr.runApi_c05_no_replay := @Otr.runApi_c05_no_replay
+
+/-- C05 between two states of an API history from a fresh conversation with no completed key exchange in between -/
+theorem api_c05_no_replay_within_session : type_of% @Otr.api_c05_no_replay_within_session :=
+  @Otr.api_c05_no_replay_within_session
 
 end Otr.C05
